@@ -132,6 +132,8 @@ def owner_of(div, beh):
     kind = div["kind"]
     op = div.get("op") or {}
     name = op.get("op")
+    if kind == "edge_to_deleted_node":
+        return {"C12"}
     if kind == "rejected_changed_state" or (kind in ("model_mismatch", "result_mismatch") and op.get("res") == "err"):
         return {"C05"}
     if graph_only(div):
